@@ -1388,6 +1388,7 @@ class Linker:
         self.__globals = {}
         self.__loader = loader
         self.__pendingImports = set()
+        self.__loadedImports = set()
 
     def AddModule(self, module: Module):
         self.__modules.append(module)
@@ -1402,8 +1403,14 @@ class Linker:
         self.__pendingImports.update(module.Imports)
 
     def Link(self) -> Program:
-        # add all imported modules
-        for importedModule in self.__pendingImports:
+        # add all imported modules. Adding a module can add further
+        # imports, and every module must only be loaded once, however
+        # many modules import it
+        while self.__pendingImports:
+            importedModule = self.__pendingImports.pop()
+            if importedModule in self.__loadedImports:
+                continue
+            self.__loadedImports.add(importedModule)
             self.AddModule(self.__loader.Load(importedModule))
 
         return Program(self.__functions, self.__globals)
